@@ -16,7 +16,8 @@ ASSUMPTIONS = ["the analysed window contains at least the first operator (an emp
                "AssertionError: outside the claim)", "simultaneous device rows are processed in the order a stable sort "
                "gives (adversarial tie orders of the unstable sort: outside the claim)", "well-formed host thread: operators contain their launch/sync calls strictly, sibling operators in index "
                "order (touching allowed); unique correlation ids; device streams positive; event 0 a host operator",
-               "causally consistent: kernel.ts >= launch.ts; kernels of one stream run in launch order without overlap; a "
+               "causally consistent: kernel.ts >= launch.ts; kernels of one stream run in launch order without overlap (launches "
+               "of two host threads: in the order of the launch calls' start times, simultaneous kernel starts in file order); a "
                "blocking synchronize call ends no earlier than the kernels it waits for, and its device-side sync event "
                "ends with the call", "host events have positive duration (zero-duration host events are excluded from the "
                "graph by the analysis itself)", "JSON reading stubbed"]
@@ -50,8 +51,23 @@ STRUCTS = {
     # a user annotation (no graph nodes of its own) between an operator and its launch call / around two calls
     "X": [[("A", [("L", S1)])]],
     "Z": [[("A", [("L", S1)]), ("L", S1)]],
+    # a second host thread ("@", tid, items): it launches on the stream on which the first thread waits for an event
+    "W2": [[("L", S1), ("R", S1), ("W", S2, 1), ("L", S2)], ("@", 300, [("L", S2)])],
+    # two host threads launching on one stream
+    "L2": [[("L", S1)], ("@", 300, [("L", S1)])],
 }
 QUICK = ["A", "B", "C", "D", "E", "I"]
+# two-thread structures: the first thread's timeline is pinned (a causally consistent concrete schedule), the second
+# thread's events are free; otherwise the interleavings of two free threads do not fit any budget
+PINNED = {
+    "W2": {"o0_ts": 0, "o0_dur": 100, "o0l0_ts": 2, "o0l0_dur": 2, "o0k0_ts": 10, "o0k0_dur": 50, "o0r1_ts": 6, "o0r1_dur": 2,
+           "o0w2_ts": 12, "o0w2_dur": 4, "o0y2_ts": 13, "o0y2_dur": 3, "o0l3_ts": 20, "o0l3_dur": 4, "o0k3_ts": 70,
+           "o0k3_dur": 10},
+}
+
+
+def pinned_vars(name):
+    return {k: ["int", v, v] for k, v in PINNED.get(name, {}).items()}
 
 
 def build(struct, step=True):
@@ -59,16 +75,17 @@ def build(struct, step=True):
 
     def host(name, tag, cat="cpu_op", corr=None):
         i = len(ev)
+        tid = state["tid"]
         if corr is None:
-            ev.append(TG.op(name, f"${tag}_ts", f"${tag}_dur", cat=cat))
+            ev.append(TG.op(name, f"${tag}_ts", f"${tag}_dur", cat=cat, tid=tid))
         else:
-            ev.append(TG.runtime(name, f"${tag}_ts", f"${tag}_dur", corr=corr))
-        h = {"id": i, "ts": f"${tag}_ts", "dur": f"${tag}_dur", "name": name, "kind": "host", "stream": -1,
+            ev.append(TG.runtime(name, f"${tag}_ts", f"${tag}_dur", corr=corr, tid=tid))
+        h = {"id": i, "ts": f"${tag}_ts", "dur": f"${tag}_dur", "name": name, "kind": "host", "stream": -1, "tid": tid,
              "children": [], "graph": cat in ("cpu_op", "cuda_runtime", "cuda_driver")}
         H.append(h)
         return h
 
-    state = {"corr": 50, "first": True}
+    state = {"corr": 50, "first": True, "tid": TG.HOST_TID}
 
     def add_op(name, tag, items, cat="cpu_op"):
         O = host(name, tag, cat=cat)
@@ -136,7 +153,13 @@ def build(struct, step=True):
                 state["corr"] += 1
         return O
 
-    ops = [add_op("aten::mm" if oi % 2 == 0 else "aten::add", f"o{oi}", items) for oi, items in enumerate(struct)]
+    ops = []
+    for oi, items in enumerate(struct):
+        if isinstance(items, tuple) and items[0] == "@":
+            state["tid"], items = items[1], items[2]
+        else:
+            state["tid"] = TG.HOST_TID
+        ops.append(add_op("aten::mm" if oi % 2 == 0 else "aten::add", f"o{oi}", items))
     return ev, H, K, Y, ops, allops
 
 
@@ -157,8 +180,10 @@ def prepare(ctx, struct, step=True, pmode="free"):
             if prev is not None:
                 ctx.assume(prev["end"] <= c["ts"])
             prev = c
-    for a, b in zip(ops, ops[1:]):
-        ctx.assume(a["end"] <= b["ts"])
+    for tid in sorted({o["tid"] for o in ops}):
+        mine = [o for o in ops if o["tid"] == tid]
+        for a, b in zip(mine, mine[1:]):
+            ctx.assume(a["end"] <= b["ts"])
     if P is not None:
         # the step annotation and the operators are properly nested or disjoint
         for n, O in enumerate(ops):
@@ -174,8 +199,24 @@ def prepare(ctx, struct, step=True, pmode="free"):
     for k in K:
         bystream.setdefault(k["stream"], []).append(k)
     for ks in bystream.values():
-        for a, b in zip(ks, ks[1:]):
-            ctx.assume(a["end"] <= b["ts"])
+        for n, a in enumerate(ks):
+            for b in ks[n + 1:]:
+                if a["launch"]["tid"] == b["launch"]["tid"]:
+                    if b is ks[n + 1] or True:
+                        ctx.assume(a["end"] <= b["ts"])
+                else:
+                    # launched by different threads: the stream runs them in launch order (either order on a tie)
+                    la, lb = a["launch"]["ts"], b["launch"]["ts"]
+                    ctx.assume(sor(sand(la <= lb, a["end"] <= b["ts"]), sand(lb <= la, b["end"] <= a["ts"])))
+                    # simultaneous starts: file order (the stated stable-tie assumption of the critical-path checks)
+                    ctx.assume(sor(a["ts"] != b["ts"], a["end"] <= b["ts"]))
+    if struct is STRUCTS.get("W2"):
+        # shape of the family (the times inside it are free): the second thread's launch call starts between the start of
+        # the first thread's cudaStreamWaitEvent and the first thread's next launch on the waiting stream
+        wait = next(h for h in H if h["name"] == "cudaStreamWaitEvent")
+        lb = next(h for h in H if h["name"] == "cudaLaunchKernel" and h["tid"] != wait["tid"])
+        la2 = [h for h in H if h["name"] == "cudaLaunchKernel" and h["tid"] == wait["tid"]][-1]
+        ctx.assume(sand(wait["ts"] <= lb["ts"], lb["ts"] <= la2["ts"]))
     for y in Y:
         S = y["call"]
         ctx.assume(sand(y["ts"] >= S["ts"], y["end"] == S["end"], y["ts"] <= y["end"]))
